@@ -313,6 +313,26 @@ def fork_case(ctx, case):
                 if pred == 'never' and (pok != (r is None) or (pok and pst != st)):
                     ctx.violation({'block': 'C', 'clause': 'a never-raising fork op behaves exactly like the NOP'},
                                   f'code {code} script {sb.hex()} witness {w.hex()}: upgraded {r!r} {st}, plain ok={pok} {pst}')
+        # a history of two forks: the second one, at another free code, takes over an alias of the first; afterwards the
+        # alias reaches the second fork, both names reach their own codes, and everything still compiles to the NOP bytes
+        code2 = code + 1 if code < 255 else 92
+        name2, shared = 'OP_FORKB%d' % code2, aliases[0]
+        n += 1
+        try:
+            T.add_soft_fork(code2, name2, make_fork_op(pred), ['FKB%d' % code2, shared])
+            for src, want_b in ((name + ' d1', bytes([code, 1])), (name2.lower() + ' d1', bytes([code2, 1])),
+                                (shared + ' d2', bytes([code2, 2])), (shared.lower() + ' d2', bytes([code2, 2])),
+                                (aliases[1] + ' d0', bytes([code, 0])), ('FKB%d d0' % code2, bytes([code2, 0])),
+                                ('if { %s d1 }' % shared.lower(), b'\x2b\x00\x02' + bytes([code2, 1]))):
+                try:
+                    got = P_.compile_script(src)
+                except BaseException as e:
+                    got = repr(e)
+                if got != want_b:
+                    ctx.violation({'block': 'C', 'clause': 'fork op reachable by its name and aliases', 'history': 'two forks sharing an alias'},
+                                  f'codes {code},{code2}: {src!r} compiled to {got if isinstance(got, str) else got.hex()}, want {want_b.hex()}')
+        except BaseException as e:
+            ctx.violation({'block': 'C', 'clause': 'add_soft_fork installs at a free code', 'history': 'second fork'}, f'code {code2}: {e!r}')
     finally:
         restore(snap)
     # after restoring, the code is a NOP again
